@@ -666,3 +666,78 @@ func laBufGrowth(c *Ctx) {
 	}
 	r.count("LA-runkind/buffer-writes-at-offset", n)
 }
+
+// laNarrowIndex (C17, C07, C04): in the level decoder no position into a buffer is computed in an 8- or 16-bit integer
+// from a loop counter: the number of groups / values of a run is bounded only by the stream (a bit-packed run of more
+// than 32 groups makes a uint8 group counter times 8 wrap, and the groups land on top of each other).
+func laNarrowIndex(c *Ctx) {
+	r, u := c.R, c.U
+	d := decoderTaint(u)
+	if d == nil {
+		return
+	}
+	var fns []*ssa.Function
+	for f := range d.fns {
+		fns = append(fns, f)
+	}
+	sort.Slice(fns, func(i, j int) bool { return fns[i].Pos() < fns[j].Pos() })
+	n := 0
+	loopCarried := func(v ssa.Value) bool {
+		phi, ok := v.(*ssa.Phi)
+		if !ok {
+			return false
+		}
+		for _, e := range phi.Edges {
+			if bo, ok := e.(*ssa.BinOp); ok && (bo.Op == token.ADD || bo.Op == token.SUB) && (bo.X == ssa.Value(phi) || bo.Y == ssa.Value(phi)) {
+				return true
+			}
+		}
+		return false
+	}
+	var narrowArith func(v ssa.Value, depth int) (bool, string)
+	narrowArith = func(v ssa.Value, depth int) (bool, string) {
+		if depth > 4 {
+			return false, ""
+		}
+		switch x := v.(type) {
+		case *ssa.Convert:
+			return narrowArith(x.X, depth+1)
+		case *ssa.BinOp:
+			w, _ := intWidth(x.Type())
+			if w > 0 && w <= 16 && (x.Op == token.MUL || x.Op == token.ADD || x.Op == token.SHL) && (loopCarried(x.X) || loopCarried(x.Y)) {
+				return true, x.Type().String()
+			}
+			if ok, t := narrowArith(x.X, depth+1); ok {
+				return ok, t
+			}
+			return narrowArith(x.Y, depth+1)
+		}
+		return false, ""
+	}
+	for _, f := range fns {
+		for _, b := range f.Blocks {
+			for _, ins := range b.Instrs {
+				var idx []ssa.Value
+				switch x := ins.(type) {
+				case *ssa.Slice:
+					idx = []ssa.Value{x.Low, x.High}
+				case *ssa.IndexAddr:
+					idx = []ssa.Value{x.Index}
+				default:
+					continue
+				}
+				for _, v := range idx {
+					if v == nil {
+						continue
+					}
+					n++
+					if bad, t := narrowArith(v, 0); bad {
+						r.bad("LA-runkind", fmt.Sprintf("%s position %s", u.FnName(f), symExpr(v, 0)), u.Pos(ins.Pos()), "a position into a buffer is computed in "+t+" from a loop counter: the number of groups / values of a run is bounded only by the stream, and the arithmetic wraps (a bit-packed run of more than 32 groups puts later groups on top of earlier ones)")
+					}
+				}
+			}
+		}
+	}
+	r.count("LA-runkind/decoder-positions", n)
+	r.floor("LA-runkind/decoder-positions", 1, "slices and element addresses in the level decoder")
+}
